@@ -124,7 +124,7 @@ def check_placement(ctx, db):
         ctx.check(ok, 'R-DEP', lab + '/r1', f.loc(), 'the sign r1 = x_refl ? -1 : 1 depends only on the incoming reflection',
                   'the reflection sign does not depend only on the incoming `x_refl` (e.g. computed after the reference\'s own flag was updated)')
         want = ['(this->rotation = ((v0 * this->rotation) + $rot))', '(this->magnification *= $mag)', '(this->x_reflection ^= $x_refl)']
-        lines = [re.sub(r'<[A-Za-z]+:[^>]*>', '', l.strip()) for l in txt.splitlines()]
+        lines = [re.sub(r'<[A-Za-z]+:(?!:)[^>]*>', '', l.strip()) for l in txt.splitlines()]
         ok = all(w in lines for w in want)
         ctx.check(ok, 'R-SHAPE', lab + '/composition', f.loc(), 'rotation = r1*rotation + rot; magnification *= mag; x_reflection ^= x_refl',
                   'placement composition differs from rotation = r1*rotation + rot; magnification *= mag; x_reflection ^= x_refl: %s' % lines[-3:])
@@ -150,7 +150,7 @@ def check_placement(ctx, db):
         ren = lambda n: roles.get(n.d) or pren(n)
         tx = ox.child('rhs').text(ren) if ox is not None else ''
         ty = oy.child('rhs').text(ren) if oy is not None else ''
-        tx, ty = [re.sub(r'<[A-Za-z]+:[^>]*>', '', t) for t in (tx, ty)]
+        tx, ty = [re.sub(r'<[A-Za-z]+:(?!:)[^>]*>', '', t) for t in (tx, ty)]
         okf = tx == '($orig.x + ($mag * ((X * COS) - ((R1 * Y) * SIN))))' and ty == '($orig.y + ($mag * ((X * SIN) + ((R1 * Y) * COS))))'
         ctx.check(okf, 'R-SHAPE', lab + '/origin-map', f.loc(), "origin' = orig + mag * R(rot) * (x, r1*y)", "origin map differs from orig + mag*(x cos - r1 y sin, x sin + r1 y cos): x: %s ; y: %s" % (tx, ty))
 
